@@ -170,7 +170,7 @@ func TestSim(t *testing.T) {
 		}
 		return v
 	}
-	verifh.Drive(t, "A", func(rt *rapid.T) {
+	verifh.Drive(t, "A", func(_ *testing.T, rt *rapid.T) {
 		p := GenPlan(rt, prop)
 		if v := one(p); v != nil {
 			verifh.Report(rt, "A", p, v)
